@@ -7,16 +7,35 @@ WX_NOTE = ("Trusted base: the reference model (harness/sim/model.go) as a readin
            "Go runtime. Bounded: at most K handles per epoch and small component/filter menus per scenario; scenarios that do not reach a fixpoint "
            "are exhaustive up to the completed depth reported in the evidence file.")
 
+LEVEL_TEXT = {
+ "wx": "Bounded exhaustive exploration of operation histories on the real implementation against a reference model; exhaustive within the stated scope (fixpoint) or up to the completed depth reported in the evidence.",
+ "enum": "Exhaustive enumeration of a finite, stated input/sequence domain, every element executed on the real implementation and compared with a reference; no sampling.",
+ "wx+model": "Bounded exhaustive exploration on the real implementation plus exhaustive exploration of a small collector model that is bound to the code by memory traces recorded through hooks.",
+}
+ENUM_NOTE = ("Trusted base: the reference semantics written in the harness (set algebra, documented ID-based equivalents, map model); Go runtime and reflect. "
+             "The enumerated domain is stated in the evidence file; nothing outside it is claimed.")
+
 checks = {
- "C01": ("explicit-state BFS over the real World vs reference model (storage oracle: Has/Mask/Ids/Get/value tokens + structural invariants on every state)", "§4 C01"),
- "C02": ("explicit-state BFS to fixpoint over entity-only worlds (all free-list shapes up to K handles) + bounded BFS with table moves; handle oracle on every state and transition", "§4 C02"),
- "C03": ("explicit-state BFS; on every state every menu filter (plain and registered) is iterated with all Next/Step compositions, Count, EntityAt and accessor cross-checks", "§4 C03"),
- "C05": ("explicit-state BFS over relation scenarios (designated-parent scenario to fixpoint) vs reference model of target rules, incl. dead/recycled/self targets through every API taking a target", "§4 C05"),
- "C06": ("explicit-state BFS over table-lifecycle alphabets (target death, retirement, re-use) vs reference model + structural invariants", "§4 C06"),
- "C07": ("explicit-state BFS with Register/Unregister as ordinary operations; cached vs model-evaluated selection on every state, batch ops through cached and plain filter", "§4 C07"),
- "C08": ("explicit-state BFS; every batch transition is compared with the model's loop of single-entity operations (state, count, Q-query contents)", "§4 C08"),
- "C10": ("explicit-state BFS with every illegal-argument class as ordinary transitions at every reachable state; must panic, state oracle afterwards", "§4 C10"),
- "C11": ("explicit-state BFS with a recording listener; per transition the event multiset is compared with the model diff, delivery-time conditions checked", "§4 C11"),
+ "C01": ("wx", "explicit-state BFS over the real World vs reference model (storage oracle: Has/Mask/Ids/Get/value tokens + structural invariants on every state); capacity increments 1/2/128, IDs spread over mask words and layout chunks", "§4 C01"),
+ "C02": ("wx", "explicit-state BFS to fixpoint over entity-only worlds (all free-list shapes up to K handles) + bounded BFS with table moves, batch removal and Reset; handle oracle on every state and transition", "§4 C02"),
+ "C03": ("wx", "explicit-state BFS; on every state every menu filter (mask, without, exclusive, relation, logic; plain and registered) is iterated with all Next/Step compositions, Count, EntityAt and accessor cross-checks; batch-result queries on every Q transition", "§4 C03"),
+ "C04": ("enum", "exhaustive enumeration of the bounded input domain of the pure mask/filter functions against a set-algebra reference: all ID pairs, all pairs of masks over word-boundary IDs, all filter expressions to nesting depth 2; both builds", "§4 C04"),
+ "C05": ("wx", "explicit-state BFS over relation scenarios (designated-parent scenario to fixpoint) vs reference model of target rules, incl. dead/recycled/self targets through every API taking a target", "§4 C05"),
+ "C06": ("wx", "explicit-state BFS over table-lifecycle alphabets (target death, retirement, re-use, self targets, batch removal, Reset) vs reference model + structural invariants", "§4 C06"),
+ "C07": ("wx", "explicit-state BFS with Register/Unregister as ordinary operations; cached vs model-evaluated selection on every state, batch ops through cached and plain filter", "§4 C07"),
+ "C08": ("wx", "explicit-state BFS; every batch transition is compared with the model's loop of single-entity operations (state, count, Q-query contents)", "§4 C08"),
+ "C09": ("wx", "explicit-state BFS over open-query (lock) states of a fixed world with a generated table of ~70 structural entry points called at every locked state and inside removal listeners + exhaustive linear sweeps over the number of open queries; both builds", "§4 C09"),
+ "C10": ("wx", "explicit-state BFS with every illegal-argument class as ordinary transitions at every reachable state; must panic, state oracle afterwards", "§4 C10"),
+ "C11": ("wx", "explicit-state BFS with a recording listener; per transition the event multiset is compared with the model diff, delivery-time conditions checked", "§4 C11"),
+ "C12": ("wx", "explicit-state BFS; for the last operation of every history all 64 subscription masks x component restrictions and Dispatch compositions are replayed and compared with the documented selection of the full event stream", "§4 C12"),
+ "C13": ("wx", "explicit-state BFS with replay-determinism guard (state key + transcript hash on every replay) + cross-process comparison of canonical per-level digests under different GC regimes", "§4 C13"),
+ "C14": ("wx+model", "call-site matrix on the real runtime + BFS over histories with a full collection after every operation + exhaustive exploration of a tri-colour collector model against memory traces recorded from the implementation", "§4 C14"),
+ "C15": ("wx", "explicit-state BFS over pairs (reset world, fresh world with the same registrations) in lock-step: identical handles and outcomes, both checked against the model", "§4 C15"),
+ "C16": ("enum", "exhaustive enumeration of registration counts 0..limit+1 with re-lookups + deviation-bounded enumeration of registration/table-creation schedules; both builds", "§4 C16"),
+ "C17": ("wx", "explicit-state BFS over entity-only worlds; dump/load pairs in lock-step (fresh worlds with capacity increment 1/2/128 and a reset world), kept dumps loaded later, JSON round trips", "§4 C17"),
+ "C18": ("enum", "exhaustive enumeration of filter-builder call sequences (bounded length) and of all Map methods x arities 1..12 x 2 variants, each executed on the real generic API and compared with the ID-based core on a twin world", "§4 C18"),
+ "C19": ("enum", "exhaustive enumeration of merge orders of pairs of histories on two real worlds (different registration orders), transcripts compared with solo runs + separate free-running race-detector pass over the same bodies", "§4 C19"),
+ "C20": ("wx", "explicit-state BFS to fixpoint over resource/lock/entity states vs a map model through all three access paths + linear sweep over all resource IDs; both builds", "§4 C20"),
 }
 
 manifest = {
@@ -26,26 +45,27 @@ manifest = {
   "guard": "verif",
   "enable": "go build -tags verif (harness module replaces github.com/mlange-42/arche with /repo; see check.sh)",
   "baseline_off_cmd": "cd /repo && go test -vet=off -count=1 ./...",
-  "source_commits": subprocess.run("git -C /repo log --format=%H --grep='verif' -i", shell=True, capture_output=True, text=True).stdout.split(),
+  "source_commits": subprocess.run("git -C /repo log --format=%H --grep='verif hooks\\|verification hooks' -i", shell=True, capture_output=True, text=True).stdout.split(),
   "add_only": True,
  },
  "engines": [
-  {"name": "wx", "path": "harness/wx", "serves_properties": sorted(checks), "kind_free_text": "hand-written explicit-state model checker: level-synchronous parallel BFS over the real implementation, replay-based successors, hashed canonical state dump"},
+  {"name": "enumerators", "path": "harness/props", "serves_properties": sorted(k for k, v in checks.items() if not v[0].startswith("wx")), "kind_free_text": "exhaustive enumerators over finite input / call-sequence domains (C04 masks and filters, C16 registration schedules, C18 generic API, C19 merge orders), executing the real implementation against reference semantics"},
+  {"name": "wx", "path": "harness/wx", "serves_properties": sorted(k for k, v in checks.items() if v[0].startswith("wx")), "kind_free_text": "hand-written explicit-state model checker: level-synchronous parallel BFS over the real implementation, replay-based successors, hashed canonical state dump"},
  ],
  "checks": [],
  "not_applicable": [],
  "notes": "All checks are ./check.sh <id> <tier>; it rebuilds the checker against /repo's working tree with -tags verif. Exit 0 = held (KNOWN-FINDING lines possible), 1 = VIOLATION line printed, 2 = the checker could not be built against /repo.",
 }
-for pid, (tech, ref) in sorted(checks.items()):
+for pid, (eng, tech, ref) in sorted(checks.items()):
     manifest["checks"].append({
       "property_id": pid,
       "quick_cmd": f"./check.sh {pid} quick",
       "thorough_cmd": f"./check.sh {pid} thorough",
       "evidence_file": f"/verif/evidence/{pid}.json",
       "replay_cmd_template": "./check.sh replay {path}",
-      "engine": "wx",
-      "level_claimed": {"category": "model_checking", "text": "Bounded exhaustive exploration of operation histories on the real implementation against a reference model; exhaustive within the stated scope (fixpoint) or up to the completed depth.", "design_ref": ref},
-      "level_note": WX_NOTE,
+      "engine": "wx" if eng.startswith("wx") else "enumerators",
+      "level_claimed": {"category": "model_checking", "text": LEVEL_TEXT[eng], "design_ref": ref},
+      "level_note": WX_NOTE if eng.startswith("wx") else ENUM_NOTE,
       "technique": tech,
     })
 all_props = [json.loads(l)["id"] for l in open("properties.jsonl")]
